@@ -10,6 +10,8 @@ def explore(res, scale=1, seed=None):
     colfam.run_family(res, "c01", BUDGET[res.tier] * scale, seed, builds=("default", "purego"))
     # String values beyond the reader's 1 MiB growth step, plain and nested, typed and inferred (direct oracle)
     colfam.run_family(res, "c01long", 15, seed, builds=("default",), sample=False)
+    # fixed-width column bodies beyond the 1 MiB read chunk and bufio's 128 KiB, both builds (direct oracle)
+    colfam.run_direct(res, "c15big", 1, seed, builds=("default", "purego"))
     # documented type equivalences at block level (aliased spellings; direct oracle)
     colfam.run_family(res, "c01alias", 150 * scale, seed, builds=("default",), sample=False)
     # block level, typed targets and Results.Auto (automatic inference wherever the type is inferable), revisions on both
